@@ -520,6 +520,50 @@ pub fn hostile(args: &[String]) {
         }
     }
     overflow_family();
+    stagnation_family();
+}
+
+/// C04: intervals far from the origin whose default step is below one rounding error of x (RK4 takes span / 100), and a
+/// min_step larger than the interval or than max_step (Radau / BDF): the call must return, without panicking
+fn stagnation_family() {
+    let mut k = 0;
+    for method in ALL_METHODS {
+        for (x0, span) in [(1e15, 1.0), (1.0, 4.0 * f64::EPSILON), (1e8, 1e-7), (-1e15, -8.0), (1e15, 64.0)] {
+            let xend = x0 + span;
+            let calls = std::cell::Cell::new(0usize);
+            let f = Overflow { which: 1, c: -1.0, calls: &calls };
+            let o = Options::builder().method(method).build();
+            let res = catch_unwind(AssertUnwindSafe(|| solve_ivp(&f, x0, xend, &[1.0], o)));
+            let (mut why, mut key, mut extra) = (String::new(), "", String::new());
+            match res {
+                Err(_) => { why = format!("solve_ivp on [{:e}, {:e} + {:e}] panicked or did not finish within 3e6 right-hand-side calls", x0, x0, span); key = "c04-hang-or-panic"; }
+                Ok(Err(_)) => { extra = "\"status\":\"Err\",".into(); }
+                Ok(Ok(sol)) => { extra = format!("\"status\":\"{:?}\",\"n\":{},", sol.status, sol.t.len()); }
+            }
+            println!("{{\"kind\":\"hs\",\"case\":{},\"problem\":\"y'=-y far from the origin\",\"method\":\"{}\",\"x0\":{:e},\"xend\":{:?},\"branch\":\"stagnation\",\"finding_key\":\"{}\",{}\"ok\":{},\"why\":{:?}}}",
+                460000 + k, method_name(method), x0, xend, key, extra, why.is_empty(), why);
+            k += 1;
+        }
+    }
+    for method in [Method::RADAU, Method::BDF] {
+        for (minstep, maxstep) in [(10.0, None), (0.5, Some(0.1)), (2.0, Some(2.0))] {
+            let calls = std::cell::Cell::new(0usize);
+            let f = Overflow { which: 1, c: -1.0, calls: &calls };
+            let mut o = Options::builder().method(method).build();
+            o.min_step = Some(minstep);
+            o.max_step = maxstep;
+            let res = catch_unwind(AssertUnwindSafe(|| solve_ivp(&f, 0.0, 1.0, &[1.0], o)));
+            let (mut why, mut key, mut extra) = (String::new(), "", String::new());
+            match res {
+                Err(_) => { why = format!("min_step = {}, max_step = {:?} on [0, 1]: solve_ivp panicked (or exceeded the work budget) instead of returning a status or an Err", minstep, maxstep); key = "c04-min-step-panic"; }
+                Ok(Err(_)) => { extra = "\"status\":\"Err\",".into(); }
+                Ok(Ok(sol)) => { extra = format!("\"status\":\"{:?}\",\"n\":{},", sol.status, sol.t.len()); }
+            }
+            println!("{{\"kind\":\"hs\",\"case\":{},\"problem\":\"y'=-y\",\"method\":\"{}\",\"x0\":0,\"xend\":1,\"min_step\":{},\"branch\":\"min-step-bounds\",\"finding_key\":\"{}\",{}\"ok\":{},\"why\":{:?}}}",
+                470000 + k, method_name(method), minstep, key, extra, why.is_empty(), why);
+            k += 1;
+        }
+    }
 }
 
 /// finite right-hand sides whose solution leaves the range of f64 before xend: 0: y' = c, 1: y' = c y, 2: y' = c x
